@@ -5,7 +5,8 @@
  *   SHAPE   concrete prefix building the buffer (chain structure and sizes concrete, payload bytes symbolic):
  *           1 empty   2 add(5)   3 add(16) (full chain)   4 add(3)+reference(4)   5 add(20) (two chains)
  *           6 add(5)+drain(2) (misaligned)   7 reference(4)+add(3)
- *           8 sendfile chain(6 bytes at file offset 4)+add(3)      9 add(3)+sendfile chain(6)
+ *           8 sendfile chain(6 bytes at file offset 4 of a 16-byte file)+add(3)      9 add(3)+sendfile chain(6)
+ *           10 shape 8 after drain(2): 4 bytes of the file range left (file offset 6), then add(3)
  *   harness_read   final = evbuffer_read(buf, fd, howmuch): howmuch and the FIONREAD answer are case-split
  *           (concrete inside each case, the case is solver-chosen: DESIGN 3.4), max_read = 24; the read result,
  *           errno and the bytes are symbolic.
@@ -47,6 +48,7 @@ static int vp_ref_cleaned;
 static unsigned char vp_pay[24];
 static int vp_has_sf;                  /* buffer contains a sendfile chain */
 static size_t vp_sf_first;             /* > 0: the FIRST chain is a sendfile chain of this many bytes */
+static size_t vp_sf_off = 4;           /* file offset of its first unsent byte */
 static void vp_ref_cleanup(const void *d, size_t n, void *e) { (void)d; (void)n; (void)e; vp_ref_cleaned++; }
 
 static void add_bytes(size_t n)
@@ -98,6 +100,10 @@ static void build(void)
 	add_sendfile(); vp_sf_first = 6; add_bytes(3);
 #elif SHAPE == 9
 	add_bytes(3); add_sendfile();
+#elif SHAPE == 10      /* what a short sendfile leaves behind: 4 bytes of the range left, starting at file offset 6 */
+	add_sendfile(); add_bytes(3);
+	__CPROVER_assume(evbuffer_drain(B, 2) == 0); vpb_drain(&M, 2);
+	vp_sf_first = 4; vp_sf_off = 6;
 #else
 #error "unknown SHAPE"
 #endif
@@ -200,7 +206,10 @@ void harness_write(void)
 			VP_ASSERT(offered >= 1 && offered <= eff, "C16: bytes offered to the kernel exceed the request");
 			if (vp_io.kind == VP_IO_SENDFILE) {
 				VP_ASSERT(vp_sf_first, "C16: sendfile used although the first chain is not a sendfile chain");
-				VP_ASSERT(vp_io.in_fd == VP_SRC_FD && vp_io.sf_off == 4, "C16: sendfile from the wrong file position");
+				VP_ASSERT(vp_io.in_fd == VP_SRC_FD && vp_io.sf_off == (long)vp_sf_off, "C16: sendfile from the wrong file position");
+				/* the count handed to sendfile covers only what is left of THIS chain's file range (the file is longer than the
+				 * range and other data follows in the buffer: anything beyond it would send foreign file bytes and drain unsent data) */
+				VP_ASSERT(offered <= vp_sf_first, "C16: sendfile asked to send more bytes than are left in the file segment chain");
 				/* Linux branch: a retriable error is reported as 0 bytes */
 				VP_ASSERT(r == vp_io.ret || (vp_io.ret == -1 && r == 0), "C16: evbuffer_write does not return what sendfile reported");
 			} else {
@@ -217,7 +226,7 @@ void harness_write(void)
 			if (vp_sf_first && (size_t)r >= vp_sf_first) vp_has_sf = 0;
 			compare("after write");
 			if (vp_sf_first && (size_t)r < vp_sf_first)
-				VP_ASSERT(B->first->misalign == 4 + r && B->first->off == vp_sf_first - (size_t)r, "C16: sendfile chain does not continue at the first unsent file byte");
+				VP_ASSERT(B->first->misalign == (ev_off_t)vp_sf_off + r && B->first->off == vp_sf_first - (size_t)r, "C16: sendfile chain does not continue at the first unsent file byte");
 #if SHAPE != 1 && !defined(VP_NO_PROGRESS)      /* (empty buffer / howmuch == 0: nothing can be written) */
 			VP_WITNESS("C16 write removed the accepted prefix");
 #endif
